@@ -571,7 +571,22 @@ func GenFilter(t *rapid.T, list string, o Opts, haveArch *string) (Filter, strin
 		switch rapid.IntRange(0, 2).Draw(t, "exitform") {
 		case 0:
 			v := rapid.OneOf(rapid.Int32(), rapid.Int32Range(-140, 10)).Draw(t, "exit")
-			f = flt("exit", op, []byte(strconv.Itoa(int(v))), uint32(v), "exit")
+			txt := strconv.Itoa(int(v))
+			if !o.Strict || true {
+				switch rapid.IntRange(0, 3).Draw(t, "exitrender") {
+				case 0:
+					if v >= 0 {
+						txt = fmt.Sprintf("0x%x", v)
+					} else {
+						txt = fmt.Sprintf("-0x%x", -int64(v))
+					}
+				case 1:
+					if v >= 0 {
+						txt = fmt.Sprintf("0%o", v)
+					}
+				}
+			}
+			f = flt("exit", op, []byte(txt), uint32(v), "exit")
 		default:
 			names := make([]string, 0, len(uapi.S.Errno))
 			for n := range uapi.S.Errno {
@@ -589,7 +604,11 @@ func GenFilter(t *rapid.T, list string, o Opts, haveArch *string) (Filter, strin
 		switch rapid.IntRange(0, 2).Draw(t, "msgform") {
 		case 0:
 			v := rapid.OneOf(rapid.Uint32(), rapid.Uint32Range(1000, 2500), rapid.SampledFrom([]uint32{0, 65535, 65536, 70000, 0xffffffff})).Draw(t, "msgtype")
-			f = flt("msgtype", op, []byte(strconv.FormatUint(uint64(v), 10)), v, "msgtype")
+			txt := strconv.FormatUint(uint64(v), 10)
+			if rapid.IntRange(0, 3).Draw(t, "msgrender") == 0 {
+				txt = fmt.Sprintf("0x%x", v)
+			}
+			f = flt("msgtype", op, []byte(txt), v, "msgtype")
 		case 1:
 			v := rapid.Uint16().Draw(t, "msgtype16")
 			f = flt("msgtype", op, []byte(fmt.Sprintf("UNKNOWN[%d]", v)), uint32(v), "msgtype-unknown")
